@@ -252,7 +252,7 @@ def run(ctx):
         root = os.path.join(src, rp.get('root') or sorted(rp['schema_files'])[0])
         q, p = rp.get('bgen_qualify_names', 1), rp.get('bgen_length_prefix', 0)
         pr = subprocess.run([exe], input='gen %d %d %s %s %s\n' % (q, p, os.path.join(d, 'out'), src, root), stdout=subprocess.PIPE, stderr=subprocess.PIPE, text=True,
-                            errors='replace', timeout=300, env=dict(os.environ, ASAN_OPTIONS='detect_leaks=0:abort_on_error=0', UBSAN_OPTIONS='print_stacktrace=1'))
+                            errors='replace', timeout=300, env=lib._limit_env({'ASAN_OPTIONS': 'detect_leaks=0:abort_on_error=0', 'UBSAN_OPTIONS': 'print_stacktrace=1'}))
         r = pr.stdout.split('END\n')[0] if 'END\n' in pr.stdout else 'CRASH ' + pr.stdout[:300] + ' || ' + ' '.join(pr.stderr.strip().split('\n')[-14:])[:1500]
         ctx.log('harness:', r[:600].replace('\n', ' | '))
         ctx.replay_case = (q, p, root, r, rp['schema_files'])
@@ -283,7 +283,18 @@ def run(ctx):
     tx.fields = [{'name': n, 'type': ty, 'attrs': []} for n, ty in (
         ('u2', ('scalar', 'int')), ('u', ('union', ux)), ('uA', ('scalar', 'ubyte')), ('u_id', ('scalar', 'long')), ('test', ('vec', ('union', ux))),
         ('test4', ('scalar', 'int')), ('test_typ', ('scalar', 'short')), ('u_typf', ('string',)), ('u_', ('scalar', 'int')), ('testZ', ('scalar', 'bool')))]
-    minis = [mini('mempty', []), mini('menums', [e1]), mini('mstructs', [s1]), mini('munion', [u1]), mini('mservice', [sv1]), mini('mtable0', [t0], t0),
+    k1 = G.Table('Konly', []); uk = G.Union('Uk', []); uk.members = [['Konly', ('table', k1), None, False]]
+    k1.fields = [{'name': 'k', 'type': ('scalar', 'int'), 'key': True, 'attrs': []}, {'name': 'v', 'type': ('vec', ('table', k1)), 'sorted': True, 'attrs': []},
+                 {'name': 'w', 'type': ('vec', ('scalar', 'short')), 'sorted': True, 'attrs': []}]
+    k2 = G.Table('Kone', []); k2.fields = [{'name': 'k', 'type': ('string',), 'key': True, 'attrs': []}, {'name': 'v', 'type': ('vec', ('table', k2)), 'sorted': True, 'attrs': []},
+                                           {'name': 'u', 'type': ('union', None), 'attrs': []}, {'name': 'uv', 'type': ('vec', ('union', None)), 'attrs': []}]
+    uk2 = G.Union('Uone', []); uk2.members = [['Kone', ('table', k2), None, False]]
+    k2.fields[2]['type'] = ('union', uk2); k2.fields[3]['type'] = ('vec', ('union', uk2))
+    s2 = G.Struct('Sone', []); s2.fields = [{'name': 'a', 'type': ('scalar', 'int'), 'key': True}, {'name': 'b', 'type': ('scalar', 'ubyte')}]
+    e2 = G.Enum('Eone', [], 'ubyte'); e2.members = [['A', None], ['B', None]]
+    t3 = G.Table('Tone', []); t3.fields = [{'name': 'e', 'type': ('vec', ('enum', e2)), 'attrs': []}, {'name': 's', 'type': ('vec', ('scalar', 'int')), 'sorted': True, 'attrs': []}]
+    minis = [mini('monetable', [k1], k1), mini('monetableunion', [k2, uk2], k2), mini('monestruct', [s2]), mini('moneenumtable', [e2, t3], t3),
+             mini('mempty', []), mini('menums', [e1]), mini('mstructs', [s1]), mini('munion', [u1]), mini('mservice', [sv1]), mini('mtable0', [t0], t0),
              mini('menumsvc', [e1, sv1]), mini('munionsib', [ux, tx], tx)]
     if not ctx.replay_in:
         schemas += minis; nS += len(minis)
@@ -323,7 +334,7 @@ def run(ctx):
         import subprocess
         try:
             pr = subprocess.run([exe], input='\n'.join(lines) + '\n', stdout=subprocess.PIPE, stderr=subprocess.PIPE, text=True, errors='replace', timeout=1500,
-                                env=dict(os.environ, ASAN_OPTIONS='detect_leaks=0:abort_on_error=0', UBSAN_OPTIONS='print_stacktrace=1'))
+                                env=lib._limit_env({'ASAN_OPTIONS': 'detect_leaks=0:abort_on_error=0', 'UBSAN_OPTIONS': 'print_stacktrace=1'}))
             out, err = pr.stdout, pr.stderr
         except subprocess.TimeoutExpired:
             out, err = '', 'timeout'
@@ -380,6 +391,14 @@ def run(ctx):
         F = L['F'].split()
         if F[0] != '0' or F[1] == 'NOFILE' or F[2] != '1':
             ctx.violation('file-path-differs', 'flatcc_generate_files(bgen_bfbs) rc=%s size=%s, bytes identical to the in-memory path: %s' % (F[0], F[1], F[2]), rep)
+        if 'X' in L:
+            X = dict(x.split('=') for x in L['X'].split())
+            if X['twice'] != '1':
+                ctx.violation('same-context:bfbs-twice', 'generating the binary schema twice on one context gives different bytes', rep)
+            if X['c_then_bfbs'] != '1' or X['bfbs_c_bfbs'] != '11':
+                ctx.violation('same-context:c-then-bfbs', 'the binary schema generated on a context that also generated the C files (all generators incl. sorter) '
+                              'differs from the one of a fresh context or fails: C-then-bfbs=%s, bfbs-C-bfbs=%s (1 same bytes, 0 different, F failed, G C generation failed)' % (
+                                  X['c_then_bfbs'], X['bfbs_c_bfbs']), rep)
         lp = L['L'].split()
         if lp[1] != '1':
             ctx.violation('length-prefix', 'length prefix wrong: requested=%d, first word %s, buffer size %d' % (p, lp[0], size), rep)
